@@ -1058,13 +1058,14 @@ impl ParserState {
             let mut recog = ParserRecognizer { state };
             for (tidx, &tok) in tokens.iter().enumerate() {
                 let state = &mut recog.state;
-                if trie.eos_tokens().contains(&tok) {
-                    if applied_idx == state.bytes.len() && state.is_accepting_inner() {
-                        return tidx + 1;
-                    } else {
-                        return tidx;
-                    }
+                if trie.eos_tokens().contains(&tok)
+                    && applied_idx == state.bytes.len()
+                    && state.is_accepting_inner()
+                {
+                    return tidx + 1;
                 }
+                // otherwise fall through: like consume_token(), treat the EOS id as an
+                // ordinary token, which a token range such as <[*]> may still allow
 
                 if applied_idx >= state.bytes.len() {
                     let saved_parser_state = state.save_state();
